@@ -672,6 +672,97 @@ def triples(draw):
     return {"history": h}
 
 
+# -- regional-locale families ---------------------------------------------------------------------------
+
+_FAM = []
+
+
+def _families():
+    """[(language, [(locale, [strings that use words/orders only that locale defines])], [base-language strings])] for every
+    language whose regional locales override word lists or the date order (read from the tree's data modules)."""
+    if _FAM:
+        return _FAM
+    from vlib import data
+    lld = data.language_locale_dict()
+    for lang in data.language_order():
+        try:
+            base = data.raw_info(lang)
+        except Exception:
+            continue
+        spec = base.get("locale_specific") or {}
+        locs = []
+        for loc in lld.get(lang, []):
+            ov = spec.get(loc) or {}
+            strs = []
+            for k, v in sorted(ov.items()):
+                if isinstance(v, list):
+                    for w in v[:2]:
+                        if k in data.MONTHS:
+                            strs.append("10 %s 2020" % w)
+                        elif k in data.WEEKDAYS:
+                            strs.append("%s" % w)
+                        else:
+                            strs.append("%s" % w)
+                elif isinstance(v, dict):
+                    for kk, ws in sorted(v.items())[:3]:
+                        for w in ws[:1]:
+                            if "\\" not in w and "(" not in w:
+                                strs.append(w)
+            if ov:
+                locs.append((loc, strs[:6], ov.get("date_order")))
+        if len(locs) >= 1:
+            bstr = ["10 %s 2020" % base[m][0] for m in ("january", "july") if base.get(m)]
+            _FAM.append((lang, locs, bstr))
+    return _FAM
+
+
+@st.composite
+def regional_histories(draw):
+    """2-5 calls on one language family: the plain language, its regional locales (by locale code, or language + region), in a
+    drawn order, on strings that only one regional locale understands, on ambiguous numeric dates (the regional date order) and
+    on plain base-language strings; the first call is repeated at the end.  Whatever one locale of a family leaves behind in
+    data shared with its siblings (word lists, the order, memoised dictionaries) shows against the fresh-process reference."""
+    fams = _families()
+    # families with word overrides are the interesting half; en/es/fr/ar/pt/de... have many locales
+    lang, locs, bstr = draw(st.sampled_from(fams))
+    numeric = ["04/03/2012", "03.04.2012", "04-03-12", "2012/04/03"]
+    pool = list(bstr) + numeric
+    chosen = draw(st.lists(st.sampled_from(locs), min_size=1, max_size=3))
+    for loc, strs, order in chosen:
+        pool.extend(strs)
+    sdicts = [None, None, None, {"NORMALIZE": False}, {"NORMALIZE": False}, {"PREFER_LOCALE_DATE_ORDER": False}, {"DATE_ORDER": "DMY"},
+              {"SKIP_TOKENS": []}]
+
+    def call(i):
+        tgt = draw(st.integers(0, 5))
+        S = copy.deepcopy(draw(st.sampled_from(sdicts)))
+        s_ = draw(st.sampled_from(pool))
+        loc = draw(st.sampled_from(chosen))[0]
+        langs = locs_ = region = None
+        if tgt <= 1:
+            langs = [lang]
+        elif tgt <= 3:
+            locs_ = [loc]
+        elif tgt == 4:
+            langs, region = [lang], loc.rsplit("-", 1)[1]
+        else:
+            other = draw(st.sampled_from(locs))[0]
+            locs_ = [loc] if other == loc else [loc, other]
+        k = draw(st.integers(0, 5))
+        if k == 0 and langs and not region:
+            return [["search", "We met on " + s_ + " and left.", langs, S, False]]
+        if k == 1:
+            return [["new_parser", i, langs, locs_, region, False, S], ["use_parser", i, s_, None]]
+        return [["parse", s_, None, langs, locs_, region, S]]
+    h = []
+    for i in range(draw(st.integers(2, 4))):
+        h.extend(call(i))
+    first = h[0] if h[0][0] != "new_parser" else None
+    if first is not None and draw(st.booleans()):
+        h.append(copy.deepcopy(first))
+    return {"history": h}
+
+
 # -- model validation with real interpreters -----------------------------------------------------------
 
 def extra_phase(ctx, known, total):
@@ -723,5 +814,6 @@ def extra_phase(ctx, known, total):
 def stages(ctx):
     return [Stage("triples_cold", "hyp", strategy=triples(), examples=ctx.n(160, 4000)),
             Stage("histories_cold", "hyp", strategy=histories(ctx.n(10, 50)), examples=ctx.n(48, 1200)),
+            Stage("regional_cold", "hyp", strategy=regional_histories(), examples=ctx.n(800, 12000)),
             Stage("triples_warm", "hyp", strategy=triples(), examples=ctx.n(1600, 40000), check=check_warm),
             Stage("histories_warm", "hyp", strategy=histories(ctx.n(14, 50)), examples=ctx.n(200, 8000), check=check_warm)]
